@@ -227,6 +227,7 @@ impl Check for C04 {
                         }
                     }
                 }
+                Op::Checkpoint { .. } => {}
                 Op::SessionNew { lang } => {
                     if l.sessions.contains_key(&ev.actor) { rep.count("session.drop_recreate"); }
                     l.session_new(ev.actor, lang);
